@@ -2,12 +2,13 @@
     PARTIAL.  Proved (theories/ClAluProofs.v, over the IR regenerated from src/cranelift.rs on every run and the value
     semantics of theories/ClirSem.v): for each of the 50 ALU opcodes (32/64-bit, immediate/register; byte swaps excepted)
     and all operand values, the IR built by translate_program defines the destination register to exactly the value the
-    ISA specification gives, and its divisions never trap.  Not modelled: control flow (blocks, brif), memory arms other
+    ISA specification gives, and its divisions never trap.  and its divisions never trap; and for each of the 44 conditional jumps the value tested by brif is non-zero iff the ISA
+    condition holds.  Not modelled: the block structure (which block brif targets), memory arms other
     than their bounds check (C11), helper calls, Cranelift's code generation.  Those are exercised by checks/C04.py against
     the interpreter (= the ISA by theorem C01); the refusal of local calls is checked there too. *)
 From Coq Require Import ZArith List.
-From RbpfV Require Import MachInt Ebpf ClirSem Isa ClAluProofs.
-From RbpfV.gen Require Import ClAlu.
+From RbpfV Require Import MachInt Ebpf ClirSem Isa ClAluProofs ClJmpProofs.
+From RbpfV.gen Require Import ClAlu ClJmp.
 Import ListNotations.
 Open Scope Z_scope.
 
@@ -18,12 +19,21 @@ Theorem C04_alu_arms : forall i rd rs,
   Forall (fun o => exists r, gen_cl_alu o i rd rs = Ok r /\ newval r rd = newval (isa_alu_value o i rd rs) rd) cl_alu_ops.
 Proof. exact cl_alu_arms. Qed.
 
+(** conditional jumps: for each of the 44 opcodes (64/32-bit, immediate/register, jset included) and all operand values, the
+    value handed to `brif` is non-zero -- the branch to the jump target is taken -- exactly when the ISA condition holds *)
+Theorem C04_jump_conditions : forall i rd rs,
+  0 <= rd < 2 ^ 64 -> 0 <= rs < 2 ^ 64 ->
+  Forall (fun o => negb (gen_cl_jmp o i rd rs =? 0) = isa_jump_taken o i rd rs) cl_jmp_ops.
+Proof. exact cl_jmp_arms. Qed.
+
 (** non-vacuity: 50 opcodes; a division by a zero register gives 0, a 32-bit modulo by zero keeps all 64 bits *)
 Example C04_example :
-  List.length cl_alu_ops = 50%nat /\
+  List.length cl_alu_ops = 50%nat /\ List.length cl_jmp_ops = 44%nat /\
+  gen_cl_jmp 0x25 {| opc := 0x25; dst := 1; src := 0; off := 2; imm := 0x40 |} (2 ^ 32) 0 = 1 /\
   gen_cl_alu 0x3c {| opc := 0x3c; dst := 1; src := 2; off := 0; imm := 0 |} 77 0 = Ok (Some 0) /\
   gen_cl_alu 0x9c {| opc := 0x9c; dst := 1; src := 2; off := 0; imm := 0 |} 0x123456789abcdef0 (2 ^ 32) = Ok (Some 0x123456789abcdef0) /\
   gen_cl_alu 0xc7 {| opc := 0xc7; dst := 1; src := 0; off := 0; imm := 4 |} (2 ^ 63) 0 = Ok (Some 0xf800000000000000).
 Proof. vm_compute. repeat split. Qed.
 
 Print Assumptions C04_alu_arms.
+Print Assumptions C04_jump_conditions.
